@@ -9,7 +9,7 @@ TECH = "deterministic simulation with fault injection: seeded search over operat
 CHECKS = {
     "C02": dict(
         level="exploration",
-        text="Seeded deterministic simulation of every hash context type (30 variants incl. keyed/odd-size/dynamic BLAKE2): up to 4 forked handles, scheduler-chosen interleaving of update/update_mut/fork/reset/reset_with_key/finalize_reset/finalize with block-boundary fragmentation and misaligned slices; every finalize and every still-live handle at end of run is compared with the library's own one-call digest of the model's byte log. All sequences of <=3 boundary operations per variant are enumerated first; the deciding step is the random search (1.5M runs quick, 100M thorough). The same split / clone / finalize-and-reset statement is also run on contexts whose BLAKE2 byte counter or SHA-1/SHA-2/RIPEMD-160 length counter was preset through hooks H1/H4 next to a word boundary (scenarios ctrwrap, lenwrap: fragmented history vs one call under the same preset), a state real data only reaches after 2^29..2^64 bytes. In a quarter of the BLAKE2 runs a call the API refuses (finalize_reset[_with_key]_at into a wrong-size buffer, an over-long key) is made on the live context and the history goes on: the digest must still depend only on the bytes fed (a later call may fail loudly, never return a wrong digest). A quarter of the re-keying calls use a key related to the one in use (same bytes zero-extended or cut, all zeros, the same key, last bit flipped); a third of the forks go through Clone::clone_from into a context of the same type that holds other pending bytes; one run in 300 is a long history of 300-700 calls. BLAKE2 const-size contexts are constructed through both documented routes (Context::new[_keyed] and the Blake2b/Blake2s marker types). Sampling, not proof.",
+        text="Seeded deterministic simulation of every hash context type (30 variants incl. keyed/odd-size/dynamic BLAKE2): up to 4 forked handles, scheduler-chosen interleaving of update/update_mut/fork/reset/reset_with_key/finalize_reset/finalize with block-boundary fragmentation and misaligned slices; every finalize and every still-live handle at end of run is compared with the library's own one-call digest of the model's byte log. All sequences of <=3 boundary operations per variant are enumerated first; the deciding step is the random search (1.5M runs quick, 100M thorough). The same split / clone / finalize-and-reset statement is also run on contexts whose BLAKE2 byte counter or SHA-1/SHA-2/RIPEMD-160 length counter was preset through hooks H1/H4 next to a word boundary (scenarios ctrwrap, lenwrap: fragmented history vs one call under the same preset; a reset or finalize_reset in the middle must give a new unkeyed context with a zero counter), a state real data only reaches after 2^29..2^64 bytes. In a quarter of the BLAKE2 runs a call the API refuses (finalize_reset[_with_key]_at into a wrong-size buffer, an over-long key) is made on the live context and the history goes on: the digest must still depend only on the bytes fed (a later call may fail loudly, never return a wrong digest). A quarter of the re-keying calls use a key related to the one in use (same bytes zero-extended or cut, all zeros, the same key, last bit flipped); a third of the forks go through Clone::clone_from into a context of the same type that holds other pending bytes; one run in 300 is a long history of 300-700 calls. BLAKE2 const-size contexts are constructed through both documented routes (Context::new[_keyed] and the Blake2b/Blake2s marker types). Sampling, not proof.",
         ref="DESIGN.md §4.1",
         note="Trusted: the harness (PRNG, byte-log model, shrinker) and the library's one-call digest path as ground truth (a consistently wrong digest is C01's business, deliberately). Real code: all cryptoxide::hashing contexts.",
         technique=TECH + "; oracle = one-call digest of the model log",
@@ -86,7 +86,7 @@ CHECKS = {
     ),
     "C20": dict(
         level="fault_enumeration",
-        text="Three build profiles of the simulator (plain release; release with overflow checks and debug assertions; dev) execute the same seeds. (1) misuse: the complete catalogue of invalid calls (45 entry-point families, 497 (entry, argument) pairs) is enumerated in every run, each call injected after a random valid history of the object concerned; every call must panic or return Err, none may return a value; its mirror image `validedge` (63 calls exactly on the legal side of the documented limits, e.g. ScryptParams::new with the largest legal p for 29 values of r up to 2^30-1) must return normally in every profile. (2) ctrwrap / lenwrap: BLAKE2 byte counters (hook H1) preset next to 2^32 / 2^64 and next to the sign boundaries 2^31 / 2^63 and SHA-1/SHA-2/RIPEMD-160 message-length counters (hook H4) preset next to 2^29..2^93 bytes, then a fragmented history across the boundary: no panic, counter getter invariant after every op, digest equal to the one-call digest under the same preset. (3) every other scenario's valid operations (hash contexts, stream ciphers incl. counter jumps next to 2^32-1, DRG, Poly1305, AEAD, HMAC, lifecycle, Ed25519, X25519, curve programs, KDFs): any panic on a valid operation in any profile is a violation, and the transcripts of the checked and dev builds must equal the plain release one. The public constant-time helper API is run the same way (scenario ctprobe: structured operand pairs, no value oracle - that would be C18). Thorough tier adds a Miri run (bounds, alignment, initialisation) of ~100 seeded histories (sources, destinations and in-place buffers at independent misalignments).",
+        text="Three build profiles of the simulator (plain release; release with overflow checks and debug assertions; dev) execute the same seeds. (1) misuse: the complete catalogue of invalid calls (45 entry-point families, 497 (entry, argument) pairs) is enumerated in every run, each call injected after a random valid history of the object concerned; every call must panic or return Err, none may return a value; its mirror image `validedge` (63 calls exactly on the legal side of the documented limits, e.g. ScryptParams::new with the largest legal p for 29 values of r up to 2^30-1) must return normally in every profile. (2) ctrwrap / lenwrap: BLAKE2 byte counters (hook H1) preset next to 2^32 / 2^64 and next to the sign boundaries 2^31 / 2^63 (histories include reset and finalize_reset of the preset context) and SHA-1/SHA-2/RIPEMD-160 message-length counters (hook H4) preset next to 2^29..2^93 bytes, then a fragmented history across the boundary: no panic, counter getter invariant after every op, digest equal to the one-call digest under the same preset. (3) every other scenario's valid operations (hash contexts, stream ciphers incl. counter jumps next to 2^32-1, DRG, Poly1305, AEAD, HMAC, lifecycle, Ed25519, X25519, curve programs, KDFs): any panic on a valid operation in any profile is a violation, and the transcripts of the checked and dev builds must equal the plain release one. The public constant-time helper API is run the same way (scenario ctprobe: structured operand pairs, no value oracle - that would be C18). Thorough tier adds a Miri run (bounds, alignment, initialisation) of ~100 seeded histories (sources, destinations and in-place buffers at independent misalignments).",
         ref="DESIGN.md §4.12",
         note="The catalogue is enumerated completely (fault_enumeration); histories are sampled. A panic is observed through catch_unwind; an abort, fault or endless loop kills or stalls the simulator process: the driver localises the run (bisection over run ranges, or the simulator's watchdog for a hang), shortens its trace and reports it with a replay file (kind 'crashed'). Hash length counters are preset through hook H4 (scenario lenwrap). Miri runs with -Zmiri-disable-stacked-borrows (see DESIGN.md).",
         technique="deterministic simulation with fault injection replayed across build profiles: enumerated misuse catalogue inside seeded valid histories, counter-preset clock jumps, transcript equality across 3 profiles",
